@@ -98,6 +98,9 @@ func runWasm(args ...string) ([]wasmResult, error) {
 	if err != nil {
 		return nil, err
 	}
+	if len(args) > 0 && args[0] != "-probe" {
+		args = append(append([]string{}, args...), wasmExtraArgs...)
+	}
 	cmd := osexec.Command(node, append([]string{exec, bin}, args...)...)
 	var stderr bytes.Buffer
 	cmd.Stderr = &stderr
@@ -129,6 +132,48 @@ func choicesArg(c []uint32) string {
 	return strings.Join(s, ",")
 }
 
+// c19WasmKnown runs the probes of the known findings about the typed-array blob under node ("wasm:<name>"),
+// prints their KNOWN-FINDING lines, sets the relaxations they bring and returns VIOLATION lines for regressions.
+func c19WasmKnown(d *driver) []string {
+	// known findings about the typed-array blob: probes run under node ("wasm:<name>")
+	var lines []string
+	var extra []string
+	known, kerr := loadKnown(filepath.Join(d.verifDir, "known_findings.json"))
+	if kerr != nil {
+		fatalInfra("known_findings.json: %v", kerr)
+	}
+	for _, k := range known {
+		if k.Property != "C19" || !strings.HasPrefix(k.Probe, "wasm:") {
+			continue
+		}
+		res, err := runWasm("-probe", strings.TrimPrefix(k.Probe, "wasm:"))
+		if err != nil || len(res) == 0 {
+			d.infraErrs = append(d.infraErrs, fmt.Sprintf("C19 js/wasm probe %s: %v", k.Probe, err))
+			continue
+		}
+		still := res[0].Signature != "" && sigMatch(k.Signature, res[0].Signature)
+		switch {
+		case k.Status == "open" && still:
+			fmt.Printf("KNOWN-FINDING: property=C19 %s [%s]\n", k.What, k.ID)
+			for _, a := range k.Avoid {
+				if a == "idbblob-truncate-detaches-views" {
+					extra = append(extra, "-lenient-truncate")
+				}
+			}
+		case k.Status == "fixed" && res[0].Signature != "":
+			tr := &TrialResult{Trace: []string{"probe " + k.Probe}, Violation: &Violation{Property: "C19", Engine: "blobsim/wasm", Kind: res[0].Kind, Signature: res[0].Signature, Detail: res[0].Detail}}
+			path := d.writeReplayEngine(tr, nil, nil, "blobsim/wasm")
+			fmt.Printf("regression of %s (%s): %s\n%s\n", k.ID, k.What, res[0].Signature, res[0].Detail)
+			lines = append(lines, fmt.Sprintf("VIOLATION property=C19 replay=%s", path))
+		}
+	}
+	wasmExtraArgs = extra
+	return lines
+}
+
+// wasmExtraArgs: relaxations in force for the js/wasm half of this run (open known findings); replays use them too.
+var wasmExtraArgs []string
+
 func c19WasmAux(d *driver) ([]string, map[string]interface{}) {
 	total := map[string]int{"quick": 4000, "thorough": 400000}[d.tier]
 	if total == 0 {
@@ -140,6 +185,7 @@ func c19WasmAux(d *driver) ([]string, map[string]interface{}) {
 		notes["wasm_half"] = "typed-array implementation not run: " + err.Error()
 		return nil, notes
 	}
+	lines := c19WasmKnown(d)
 	nw := d.nworkers
 	per := (total + nw - 1) / nw
 	type part struct {
@@ -171,7 +217,6 @@ func c19WasmAux(d *driver) ([]string, map[string]interface{}) {
 	}
 	wg.Wait()
 	trials, distinct := 0, 0
-	var lines []string
 	seen := map[string]bool{}
 	for _, p := range parts {
 		if p.err != nil {
@@ -249,6 +294,19 @@ func c19WasmAux(d *driver) ([]string, map[string]interface{}) {
 }
 
 func c19WasmReplay(d *driver, rf *replayFile, path string) int {
+	if len(rf.Trace) == 1 && strings.HasPrefix(rf.Trace[0], "probe wasm:") {
+		res, err := runWasm("-probe", strings.TrimPrefix(rf.Trace[0], "probe wasm:"))
+		if err != nil || len(res) == 0 {
+			fatalInfra("wasm probe replay: %v", err)
+		}
+		if res[0].Signature != "" {
+			fmt.Printf("%s\nVIOLATION property=C19 replay=%s\n", res[0].Detail, path)
+			return 1
+		}
+		fmt.Printf("replay of %s: the scenario passes on this tree\n", path)
+		return 0
+	}
+	c19WasmKnown(d) // the relaxations of open findings apply to replays as well
 	if rf.Violation != nil && rf.Violation.Kind == "crash" {
 		rr, err := runWasm("-base", fmt.Sprint(rf.BaseSeed), "-from", fmt.Sprint(rf.Trial), "-to", fmt.Sprint(rf.Trial+1))
 		for _, x := range rr {
